@@ -161,7 +161,7 @@ def run(ctx):
             ctx.sample(dict(actions=[s["a"] for s in tests[len(tests) * 2 // 3]["steps"]], results=[s["r"] for s in tests[len(tests) * 2 // 3]["steps"]]))
             replay(ctx, binary, tests, name, stats)
         beh, fans = vflib.sim_behaviours(jobs["sim"].result().emit_path, with_fans=True)
-        keep = [t for i, t in enumerate(fans) if (i * 2654435761 + ctx.seed) % (16 if quick else 2) == 0]
+        keep = [t for i, t in enumerate(fans) if (i * 2654435761 + ctx.seed) % (16 if quick else 8) == 0]
         for t in beh + keep:
             per_action[t["steps"][-1]["a"][0]] += 1
             ctx.nontrivial.add(vflib.digest([s["a"] for s in t["steps"]]))
